@@ -474,7 +474,25 @@ fn run(r: &mut Report, sc: &Scenario, seed: u64) {
         let got = seen.remove(&ev.vid).unwrap_or_default();
         let w = want(ev, sc.subset);
         r.nontrivial(&(sc.subset, sc.transport, ev.kind, ev.extent, ev.val, ev.agg.is_some()));
-        let class = format!("kind={}:extent={}:value={}:subset={}", ev.kind.name(), ev.extent.name(), ev.val.name(), subset_name(sc.subset));
+        // signature class: the kind family, the extent and whether the value is numeric (the exact
+        // spelling of the kind and the exact value are in the case)
+        let class = format!(
+            "kind={}:extent={}:value={}:subset={}",
+            if ev.kind.is_span() {
+                "span"
+            } else if ev.kind.is_metric() {
+                "metric"
+            } else {
+                "other"
+            },
+            ev.extent.name(),
+            match ev.val.numeric() {
+                Numeric::Yes => "numeric",
+                Numeric::No => "not-numeric",
+                Numeric::Unsettled => "unsettled",
+            },
+            subset_name(sc.subset)
+        );
         let names = |v: &[Signal]| v.iter().map(|s| s.name()).collect::<Vec<_>>().join("+");
         let detail = || {
             let mut j = ev.class_json();
